@@ -106,10 +106,10 @@ def mtime_seen(case):
     return int(case['mtime'] + 1e-9 * case['frac'])
 
 
-def st(file, mtime=1700000000, frac=0, method='GET', rng=None, ims=None, delta=None, tz=None, via='direct', prev=None, kw=None):
+def st(file, mtime=1700000000, frac=0, method='GET', rng=None, ims=None, delta=None, tz=None, via='direct', prev=None, kw=None, setup=None):
     """ims: literal header or None; delta: if not None the header is a well-formed date mtime+delta (format in ims)"""
     return dict(kind='static', file=file, mtime=mtime, frac=frac, method=method, range=rng, ims=ims, delta=delta, tz=tz,
-                via=via, prev=prev, kw=kw or {})
+                via=via, prev=prev, kw=kw or {}, setup=setup)
 
 
 def pr(fname, mimetype='auto', charset='UTF-8', download=False):
@@ -181,6 +181,11 @@ def corpus():
         st(d10, via='app2', prev=dict(ims='Thu, 01 Jan 2099 00:00:00 GMT')),
         st(d10, via='app2', rng='bytes=0-1', prev=dict(range='bytes=5-6')),
         st(d10, via='app', prev=dict(range='bytes=2-4')), st(d10, via='direct', prev=dict(range='bytes=2-4')),
+        # configuring the DEFAULT application after import must not detach static_file from its requests (seeded change C17/14)
+        st(d10, via='app', setup={}, rng='bytes=2-4'), st(d10, via='app', setup=dict(max_memfile_size=2048), method='HEAD'),
+        st(d10, via='app', setup=dict(debug=True), ims='rfc1123', delta=0), st(d10, via='app', setup={}),
+        st(d10, via='app', rng='bytes=-3'), st(d10, via='direct', setup={}, rng='bytes=2-4'),
+        st(d10, via='fresh', rng='bytes=2-4'), st(d10, via='fresh', setup=dict(debug=True), prev=dict(range='bytes=0-0')),
         # presentation arguments do not change status, length, range or body
         st(d10, rng='bytes=2-4', kw=dict(mimetype='text/plain', charset='latin1', download=True)),
         st(d10, kw=dict(mimetype=None, download='x.bin')), st(d10, via='app2', kw=dict(download=True, mimetype='text/html')),
@@ -318,7 +323,8 @@ def gen(rng, n):
                 delta = rng.choice([0, 0, 1, -1, -mtime, 60, 86400])   # dates at and around the epoch
             frac = rng.choice([0, 0, 1, 500000000, 999999999])
             tz = rng.choice(TZS) if (ims is not None and rng.random() < 0.5) else None
-            via = rng.choice(['direct', 'direct', 'direct', 'app', 'app2', 'app2'])
+            via = rng.choice(['direct', 'direct', 'direct', 'app', 'app', 'app2', 'app2', 'fresh'])
+            setup = rng.choice([None, None, {}, dict(max_memfile_size=4096), dict(debug=False)]) if via != 'app2' else None
             prev = None
             if rng.random() < 0.4:
                 prev = rng.choice([dict(range='bytes=1-2'), dict(range='bytes=0-'), dict(method='HEAD'), dict(range='junk'),
@@ -327,7 +333,7 @@ def gen(rng, n):
             if rng.random() < 0.3:
                 kw = rng.choice([dict(download=True), dict(mimetype=None), dict(mimetype='text/plain', charset='latin1'),
                                  dict(download='x.bin', mimetype='application/x'), dict(charset='')])
-            yield st(file, mtime, frac, method, rg, ims, delta, tz, via, prev, kw)
+            yield st(file, mtime, frac, method, rg, ims, delta, tz, via, prev, kw, setup)
 
 
 def thorough():
@@ -365,8 +371,25 @@ def apps():
         app2 = ombott.Ombott()
         Globals.app.route('/__sf')(handler)
         app2.route('/__sf')(handler)
-        _APPS.update(app=Globals.app, app2=app2)
+        _APPS.update(app=Globals.app, app2=app2, handler=handler)
     return _APPS
+
+
+def app_for(case):
+    """the application object that serves the case: 'app' = the module-level default application, 'app2' = one second
+    application kept for the whole process, 'fresh' = a new Ombott() per case; setup= calls app.setup(config) first
+    (the documented way to configure an application after import)"""
+    via = case['via']
+    a = apps()
+    if via == 'fresh':
+        import ombott
+        app = ombott.Ombott(case.get('setup') or None)
+        app.route('/__sf')(a['handler'])
+        return app
+    app = a[via]
+    if case.get('setup') is not None:
+        app.setup(dict(case['setup']))
+    return app
 
 
 def request_environ(method, rng, ims):
@@ -463,9 +486,13 @@ def run_impl(case):
         if prev:
             # an earlier, unrelated request handled by the default application on this thread
             set_request(prev.get('method', 'GET'), prev.get('range'), prev.get('ims'))
-        elif via == 'app2':
+        else:
+            # no earlier request: the default application's request object is a plain GET, so that every case is
+            # reproducible on its own whatever ran before it in the process
             set_request('GET', None, None)
         if via == 'direct':
+            if case.get('setup') is not None:
+                apps()['app'].setup(dict(case['setup']))
             set_request(case['method'], case['range'], ims_header(case))
         pd_args = []
         opened = []
@@ -490,7 +517,7 @@ def run_impl(case):
                     resp = ombott.static_file(os.path.basename(path), tmpdir(), **kw_of(case))
                 else:
                     _CUR.update(name=os.path.basename(path), root=tmpdir(), kw=kw_of(case))
-                    wire = wsgi_call(apps()[via], request_environ(case['method'], case['range'], ims_header(case)))
+                    wire = wsgi_call(app_for(case), request_environ(case['method'], case['range'], ims_header(case)))
         finally:
             ss.parse_date = real_pd
             if had_open:
@@ -885,6 +912,10 @@ def shrink(case):
             yield dict(case, prev=None)
         if case.get('via', 'direct') == 'app':
             yield dict(case, via='direct')
+        if case.get('via') == 'fresh':
+            yield dict(case, via='app2')
+        if case.get('setup'):
+            yield dict(case, setup={})
 
 
 def _over_digit_limit(case, what, m):
@@ -894,7 +925,7 @@ def _over_digit_limit(case, what, m):
 
 
 def _outside_default_app(case, what, m):
-    return case.get('kind') == 'static' and case.get('via') == 'app2'
+    return case.get('kind') == 'static' and case.get('via') in ('app2', 'fresh')
 
 
 PREDICATES = {'range_numeral_over_int_digit_limit': _over_digit_limit,
@@ -908,7 +939,8 @@ API_SURFACE = [
     ('request.method (HEAD)', 'covered by kind static method=HEAD, directly and through the WSGI entry point'),
     ('environ HTTP_RANGE', 'covered by kind static: absent, empty, grammar, near misses'),
     ('environ HTTP_IF_MODIFIED_SINCE', 'covered by kind static: absent, empty, three date forms, parameters, junk, epoch, time zones'),
-    ('Globals.request / application binding', 'covered by kind static via=direct|app|app2 with prev= (an earlier unrelated request on the default application)'),
+    ('Globals.request / application binding', 'covered by kind static via=direct|app|app2|fresh with prev= (an earlier unrelated request on the default application)'),
+    ('Ombott(config) / Ombott.setup(config)', 'covered by setup= on via=app|direct (default application reconfigured after import) and via=fresh (constructor)'),
     ('several calls in one process', 'covered: every case runs in one process, prev= makes the order adversarial; static_stream has no module-level state of its own'),
     ('common_helpers.parse_date', 'covered through kind static (argument recorded, result fed to the model; instants judged independently by the oracle under several TZ)'),
     ('Last-Modified / Date values', 'excluded: email.utils.formatdate output is not modelled; presence is compared'),
